@@ -49,12 +49,57 @@ class C10(Property):
                                   "has_version": ver is not None, "version": ver, "adj": False}))
         return out
 
+    def group_family(self, rng, k):
+        """An adjacent group cut short (its last member missing, or a member that does not convert) next to a switch, at the
+        top or inside a subcommand; the request to the LEFT of the group, inside it, or to its right."""
+        names = gen.Names(rng, unicode_ok=False)
+        head = gen.req_flag(names.named(help_p=0.0))
+        mvs = rng.sample(["X", "Y", "Z"], rng.choice([1, 2]))
+        members = [head] + [gen.pos(m, rng.choice(["u32", "string"])) for m in mvs]
+        g = gen.adj(*members)
+        if rng.random() < 0.4:
+            g = gen.wrap(rng.choice(["many", "optional"]), g, catch=False)
+        sw = gen.flag(names.named(help_p=0.0))
+        level = gen.con(g, sw) if rng.random() < 0.5 else gen.con(sw, g)
+        ver = "3.1" if rng.random() < 0.6 else None
+        if rng.random() < 0.5:
+            opts = gen.options(level, descr="Lg0", version=ver)
+            pre, lvl, o = [], 0, opts
+        else:
+            sub = gen.options(level, descr="Lg1", version=ver)
+            cn = names.cmdname()
+            opts = gen.options(gen.con(gen.flag(names.named(help_p=0.0)), gen.cmd(cn, sub, help="c")), descr="Lg0")
+            pre, lvl, o = [cn.encode()], 1, sub
+        vals = [b"%d" % rng.randrange(100) for _ in mvs]
+        if rng.random() < 0.6 or all(m["ty"] == "string" for m in members[1:]):
+            vals = vals[:-1]                                    # the last member is missing
+        else:
+            i = rng.choice([j for j, m in enumerate(members[1:]) if m["ty"] == "u32"])
+            vals[i] = b"x%d" % i                                # a member that is not a number
+        block = [gen.spell_flag(rng, head)] + vals
+        lead = [gen.spell_flag(rng, sw)] if rng.random() < 0.4 else []
+        out = [Case("g%dyb" % k, opts, pre + lead + block, tags={"role": "base", "group": "g%dy" % k})]
+        for j, (what, where) in enumerate([("help", "left"), ("help", "inside"), ("help", "right"), ("version", "left"), ("version", "right")]):
+            if what == "version" and ver is None:
+                continue
+            item = rng.choice([b"--help", b"-h"]) if what == "help" else rng.choice([b"--version", b"-V"])
+            if where == "left":
+                line = pre + [item] + lead + block if rng.random() < 0.5 else pre + lead + [item] + block
+            elif where == "inside":
+                line = pre + lead + block[:1] + [item] + block[1:]
+            else:
+                line = pre + lead + block + [item]
+            out.append(Case("g%dy%d" % (k, j), opts, line,
+                            tags={"role": what, "valid": False, "group": "g%dy" % k, "level": lvl, "marker": o["descr"],
+                                  "has_version": ver is not None, "version": ver, "adj": True, "where": where}))
+        return out
+
     def generate(self, rng, tier, n):
         cases = []
         k = 0
         while len(cases) < n:
             if rng.random() < 0.05:
-                cases.extend(self.conflict_family(rng, k))
+                cases.extend(self.conflict_family(rng, k) if rng.random() < 0.5 else self.group_family(rng, k))
                 k += 1
                 continue
             opts, names = gen.gen_options(rng, features=rng.choice([("alt", "cmd", "pos"), ("alt", "cmd", "pos", "adj"), ("pos",)]),
@@ -165,9 +210,6 @@ class C10(Property):
             # construct! reports the first failing field: a failing sibling field of an enclosing level hides the
             # help/version produced inside a subcommand
             return (not t["valid"]) and t["level"] >= 1
-        if cls == "adjacent_cut_short":
-            # a failed adjacent group/command leaves a narrowed scope behind; a request outside it is not found
-            return (not t["valid"]) and t["adj"]
         return False
 
 
